@@ -166,10 +166,19 @@ class SymExec:
             if r is not None:
                 return r
         if isinstance(n, ast.IfExp):
-            return mk_ite(self.text(n.test), self.val(n.body), self.val(n.orelse))
+            return mk_ite(self.cond_text(n.test), self.val(n.body), self.val(n.orelse))
         if isinstance(n, ast.Call) and dotted(n.func) == "slice" and len(n.args) == 2 and not n.keywords:
             return Slice(self.val(n.args[0]), self.val(n.args[1]))
         return Opaque(self.text(n))
+
+    def cond_text(self, test):
+        """text of a branch condition; a flag that was set by `flag = True if c else False` / under `if c:` is c itself"""
+        v = self.val(test)
+        if isinstance(v, Ite) and v.a == Opaque("True") and v.b == Opaque("False"):
+            return v.cond
+        if isinstance(v, Ite) and v.a == Opaque("False") and v.b == Opaque("True"):
+            return f"not ({v.cond})"
+        return self.text(test)
 
     # ---- statements --------------------------------------------------------------------
     def run(self, stmts):
@@ -203,8 +212,14 @@ class SymExec:
             pass
         elif isinstance(s, ast.Pass):
             pass
+        elif isinstance(s, ast.While):
+            # an inner loop is not followed: what it may re-bind becomes unknown, the loop itself is recorded
+            for n in ast.walk(s):
+                if isinstance(n, ast.Name) and isinstance(n.ctx, ast.Store):
+                    self.env[n.id] = Opaque(f"<{n.id} after loop>")
+            self.effects.append(("loop", (self.text(s.test), s), self.path))
         elif isinstance(s, ast.If):
-            cond = self.text(s.test)
+            cond = self.cond_text(s.test)
             a = SymExec(self.env)
             a.path = self.path + ((cond, True),)
             a.run(s.body)
